@@ -749,8 +749,22 @@ func size(v Value) int {
 // FormatNum is how numbers print: shortest decimal form without exponent.
 func FormatNum(f float64) string { return strconv.FormatFloat(f, 'f', -1, 64) }
 
-// Format renders a value the way print shows it.
+// Format renders a value the way print shows it. A value whose printed form exceeds 4 MB
+// (a shared sub-array printed thousands of times) ends the reference run like an exhausted budget.
 func Format(v Value) string {
+	n := 0
+	return format(v, &n)
+}
+
+func format(v Value, n *int) string {
+	s := format1(v, n)
+	if *n += len(s); *n > 1<<22 {
+		panic(evyPanic{Outcome{Class: "fuel", Msg: "value too large to print"}})
+	}
+	return s
+}
+
+func format1(v Value, n *int) string {
 	switch v := v.(type) {
 	case float64:
 		return FormatNum(v)
@@ -759,17 +773,17 @@ func Format(v Value) string {
 	case bool:
 		return strconv.FormatBool(v)
 	case *AnyV:
-		return Format(v.V)
+		return format(v.V, n)
 	case *ArrV:
 		parts := make([]string, len(v.E))
 		for i, e := range v.E {
-			parts[i] = Format(e)
+			parts[i] = format(e, n)
 		}
 		return "[" + strings.Join(parts, " ") + "]"
 	case *MapV:
 		parts := make([]string, 0, len(v.Keys))
 		for _, k := range v.Keys {
-			parts = append(parts, k+":"+Format(v.M[k]))
+			parts = append(parts, k+":"+format(v.M[k], n))
 		}
 		return "{" + strings.Join(parts, " ") + "}"
 	}
